@@ -362,6 +362,10 @@ class ModuleNormaliser:
             if name in known or len(sts) != 1:
                 continue
             v = sts[0].value
+            if isinstance(v, ast.Call) and isinstance(v.func, ast.Attribute) and isinstance(v.func.value, ast.Name) and v.func.value.id == "re" \
+                    and v.func.attr == "compile" and all(is_pure(a) for a in v.args) and not any(isinstance(x, ast.Call) for a in v.args for x in ast.walk(a)):
+                consts[name] = v        # a compiled pattern is a constant: re.compile(P).match(s) is re.match(P, s)
+                continue
             if isinstance(v, (ast.Constant, ast.Tuple, ast.List, ast.Dict, ast.JoinedStr, ast.BinOp)) and not any(isinstance(x, (ast.Call, ast.Lambda, ast.Await, ast.Yield)) and not (isinstance(x, ast.Call) and isinstance(x.func, ast.Attribute) and x.func.attr == "escape") for x in ast.walk(v)):
                 consts[name] = v
         return consts
@@ -383,6 +387,24 @@ class ModuleNormaliser:
                 if used:
                     fn.body = _stmts_subst(fn.body, m)
                     self.log.append(f"{q}: module constant(s) {sorted(used)} substituted")
+        # 1b. compiled patterns: re.compile(P).match(s) -> re.match(P, s)
+        class RC(ast.NodeTransformer):
+            def visit_Call(self, n):
+                self.generic_visit(n)
+                f = n.func
+                if isinstance(f, ast.Attribute) and f.attr in ("match", "search", "fullmatch", "sub", "findall", "split", "finditer") and isinstance(f.value, ast.Call) \
+                        and isinstance(f.value.func, ast.Attribute) and isinstance(f.value.func.value, ast.Name) and f.value.func.value.id == "re" \
+                        and f.value.func.attr == "compile" and len(f.value.args) >= 1:
+                    flags = f.value.args[1:] + [k.value for k in f.value.keywords]
+                    if not flags:
+                        return ast.copy_location(ast.Call(func=ast.Attribute(value=ast.Name(id="re", ctx=ast.Load()), attr=f.attr, ctx=ast.Load()),
+                                                          args=[f.value.args[0]] + list(n.args), keywords=n.keywords), n)
+                return n
+        if consts:
+            for q, (fn, owner, cls) in self.defs.items():
+                fn.body = [RC().visit(s_) for s_ in fn.body]
+                for s_ in fn.body:
+                    ast.fix_missing_locations(s_)
         # 2. inline new helpers (a few rounds, innermost first)
         for _ in range(3):
             changed = False
@@ -633,6 +655,13 @@ class ModuleNormaliser:
         if len(body) == 1 and isinstance(body[0], ast.Return):
             return None       # expression-level inlining handles it
         tmp = f"r__h{next(self.counter)}"
+        # `f(.., helper(x))` as the last use of x: let the result take x's name (x = helper(x)), which restores the
+        # common idiom `if not isinstance(x, T): x = T(x)` followed by the use of x
+        if len(call.args) == 1 and not call.keywords and isinstance(call.args[0], ast.Name):
+            a = call.args[0].id
+            others = [n for n in ast.walk(st) if isinstance(n, ast.Name) and n.id == a and not any(n is x for x in ast.walk(call))]
+            if not others and self._dead_after(self.defs[q][0], st, a) and a not in {"self", "cls"}:
+                tmp = a
         probe = clone(st)
         target_txt = ast.dump(call)
 
